@@ -29,5 +29,15 @@ Scenario2 == << B, Sel({1, 2}), A0("OwnRunOk"), A0("SignalFails"),
 Scenario3 == << B, A0("AnnounceFails"), B, Sel({1, 3}), A0("OwnRunFails"),
                 B, Sel({1, 2}), A0("OwnRunOk"), A0("SignalOk"), D(3, 2, "B"), D(1, 3, "A"), D(3, 2, "B"),
                 A0("WaitTimeout"), A0("Stop") >>
-AllScenarios == << Scenario1, Scenario2, Scenario3 >>
+(* 4: done checks of attempt 1 arrive, the own run fails (no wait); attempt 2  *)
+(*    has another included set and fewer than all of its members confirm      *)
+Scenario4 == << B, Sel({1, 2}), D(2, 1, "A"), A0("OwnRunFails"),
+                B, Sel({1, 3}), A0("OwnRunOk"), A0("SignalOk"), D(1, 2, "A"), A0("WaitTimeout") >>
+(* 5: the same with the member itself excluded from attempt 2 *)
+Scenario5 == << B, Sel({1, 3}), D(3, 1, "A"), D(1, 1, "A"), A0("OwnRunFails"),
+                B, Sel({2, 3}), D(2, 2, "A"), A0("WaitTimeout") >>
+(* 6: signalDone fails after done checks arrived; attempt 2 completes         *)
+Scenario6 == << B, Sel({1, 2}), D(2, 1, "B"), A0("OwnRunOk"), A0("SignalFails"),
+                B, Sel({1, 3}), A0("OwnRunOk"), A0("SignalOk"), D(3, 2, "A"), D(1, 2, "A"), A0("Check") >>
+AllScenarios == << Scenario1, Scenario2, Scenario3, Scenario4, Scenario5, Scenario6 >>
 =============================================================================
